@@ -107,6 +107,18 @@ INFO = {
     "k >= 2, an almost empty queue: the producer's slot CAS lands in a segment that head has just left; the push is reported successful, the value sits behind head"),
  "r5-c13-leftright-wait-hoisted": ("C13", "left_right::update waits for the readers of the next version index before the first application instead of after the version toggle",
     "a reader that loaded the version index and is stalled across a complete toggle wakes up during the next back-to-back update and reads the instance being modified"),
+ "r6-c16-ms-pop-no-help": ("C16", "michael_scott_queue::pop_node no longer helps to swing _tail when head == tail but head->next != nullptr; it backs off and retries",
+    "a pusher stopped between linking its node onto an empty queue and its own tail swing: every pop spins"),
+ "r6-c01-qsbr-exit-deletes-oldest-list": ("C01", "quiescent_state_based::~thread_data deletes retire_lists[(local_epoch + 1) % 3] at thread exit before the orphan hand-over",
+    "a reader one epoch behind still guards a node that the exiting thread retired two epochs ago: the node is destroyed at the thread exit"),
+ "r6-c07-vyukov-bounded-late-dtor": ("C07", "vyukov_bounded_queue::do_try_pop runs the destructor of the moved-from cell after the release store that hands the cell back",
+    "non-trivially destructible elements, a producer waiting for exactly that cell constructs the next element before the late destructor runs: it destroys an element the queue owns"),
+ "r6-c13-leftright-first-wait-removed": ("C13", "left_right::toggle_version_and_wait no longer drains the read indicator it is about to make current",
+    "a reader whose version load / arrive straddles one update, and a second back-to-back update applying the functor to the instance that reader still reads"),
+ "r6-c03-vyukov-tryget-state-relaxed": ("C03", "vyukov_hash_map::try_get_value loads the bucket state relaxed instead of acquire at the start of the lookup",
+    "node based storage (non-trivial key or value): a reader finds an entry another thread has just inserted and dereferences its node without happens-before to its construction"),
+ "r6-c10-vyukov-extract-ext-prev-lost": ("C10", "vyukov_hash_map::do_extract: the extension loop no longer advances extension_prev, a removal in the extension list writes bucket.head = found->next",
+    ">= 128 buckets, >= 5 keys in one bucket, erase / extract of an extension key that is not the most recently inserted one: the items in front of it vanish"),
 }
 rows = []
 for sid in sorted(INFO):
